@@ -221,7 +221,7 @@ def execute(case):
         x, inner = build(case, n)
         reusable = case['kind'] != 'OneShot'
         for draw in case['draws']:
-            for ep in entry.ENTRY_POINTS:
+            for ep in prep.entry_points():
                 if reusable:
                     x.log.clear()
                     for l in inner:
